@@ -3,7 +3,7 @@
    incremental rendering equals drawing the last screen from scratch. *)
 From Coq Require Import ZArith List Bool Lia.
 From PTK Require Import Lib.Sx Lib.Py Model.C06_Terminal Model.C06_Renderer
-  Proofs.C06_TermFacts Proofs.C06_DiffFacts.
+  Proofs.C06_TermFacts Proofs.C06_RowFacts Proofs.C06_DiffFacts.
 Import ListNotations.
 Open Scope Z_scope.
 
@@ -17,13 +17,13 @@ Hypothesis HH : 0 <= H.
 Hypothesis Hpv : forall c a, ahs (tbs c) a = false -> pvis (apen (tbs c) a) = pvis 0.
 
 Definition Sync (r : rst) (t : term) : Prop :=
-  cx t = fst (rpos r) /\ cy t = snd (rpos r) /\ 0 <= fst (rpos r) <= W - 1 /\ 0 <= snd (rpos r) /\
+  cx t = fst (rpos r) /\ cy t = snd (rpos r) /\ 0 <= fst (rpos r) <= W - 1 /\ 0 <= snd (rpos r) < Z.max H 1 /\
   pend t = false /\ undef t = false /\ cvrel (rcv r) t /\
   (fs = true -> ralt r = false -> rpos r = (0, 0)) /\
   match rlast r with
   | None => True
   | Some s => exists cfg, rcfg r = Some cfg /\ rsize r = Some (W, H) /\ wf_screen W H s /\
-                          Shows W (tbs cfg) pvis t s /\ pen t = 0 /\ aw t = negb fs
+                          Shows W (tbs cfg) pvis H t s /\ pen t = 0 /\ aw t = negb fs
   end.
 
 Definition okop (o : op) : Prop :=
@@ -89,6 +89,8 @@ Definition prologue (r : rst) : list tok :=
   (if fs && negb (ralt r) then [TRaw 4; THome] else []) ++
   (if rbp r then [] else [TRaw 1]) ++ (if rckm r then [] else [TRaw 3]).
 
+Definition prevh (r : rst) : Z := match rlast r with Some p => sh p | None => 0 end.
+
 Definition last2_of (r : rst) (cfg : Z) : option screen :=
   if cfg_eqb (rcfg r) cfg then (if size_eqb (rsize r) W H then rlast r else None) else None.
 
@@ -100,7 +102,10 @@ Lemma render_diff_part : forall r t cfg done scr pos cv td,
   Rendered W (tbs cfg) pvis H fs done scr (trun W (trun W t (prologue r)) td) pos cv /\
   (forall p, last2_of r cfg = Some p -> done = false -> rsize r = Some (W, H) ->
      forall y x, Z.max (sh scr) (sh p) <= y ->
-     tgrid (trun W (trun W t (prologue r)) td) y x = tgrid t y x).
+     tgrid (trun W (trun W t (prologue r)) td) y x = tgrid t y x) /\
+  (1 <= H ->
+   okrun (if done then Z.max (H - 1) (Z.min (sh scr) H) else H - 1)
+         (Z.min (Z.max (sh scr) (prevh r)) H - 1) W t (prologue r ++ td)).
 Proof.
   intros r t cfg done scr pos cv td S Ws D.
   pose proof (prologue_run r t S) as P. cbv zeta in P. fold (prologue r) in P.
@@ -109,7 +114,7 @@ Proof.
   set (tp := trun W t (prologue r)) in *.
   assert (HP : match last2_of r cfg with
                | None => True
-               | Some p => wf_screen W H p /\ Shows W (tbs cfg) pvis tp p /\ pen tp = 0 /\ (fs = true -> aw tp = false)
+               | Some p => wf_screen W H p /\ Shows W (tbs cfg) pvis H tp p /\ pen tp = 0 /\ (fs = true -> aw tp = false)
                end).
   { unfold last2_of. destruct (cfg_eqb (rcfg r) cfg) eqn:E1; [|exact I].
     destruct (size_eqb (rsize r) W H) eqn:E2; [|exact I].
@@ -120,10 +125,21 @@ Proof.
     - intros y x Hy Hx. rewrite G. apply Sp; auto.
     - split; [congruence|]. intros F. rewrite A, Ap, F. reflexivity. }
   destruct (screen_diff_ok W (tbs cfg) pvis HW (Hpv cfg) H fs done scr (last2_of r cfg) (rpos r) _ (rcv r)
-              tp pos cv td HH Ws ltac:(congruence) ltac:(congruence) Cxr Cyr ltac:(congruence)
-              ltac:(unfold cvrel in *; destruct (rcv r); congruence) HP D) as (U2 & R & FR).
-  split; [congruence|]. split; [exact R|].
-  intros p EP ED ES y x Hy. rewrite (FR p EP ED ltac:(rewrite ES; reflexivity) y x Hy). rewrite G. reflexivity.
+              tp pos cv td HH Ws ltac:(congruence) ltac:(congruence) Cxr (proj1 Cyr) ltac:(congruence)
+              ltac:(unfold cvrel in *; destruct (rcv r); congruence) HP D) as (U2 & R & FR & OKD).
+  split; [congruence|]. split; [exact R|]. split.
+  { intros p EP ED ES y x Hy. rewrite (FR p EP ED ltac:(rewrite ES; reflexivity) y x Hy). rewrite G. reflexivity. }
+  intros H1. pose proof Ws as (_ & Hs0 & _ & _ & Cys).
+  assert (PH : 0 <= match last2_of r cfg with Some p => sh p | None => 0 end <= prevh r).
+  { unfold last2_of, prevh. destruct (cfg_eqb (rcfg r) cfg); [|destruct (rlast r) as [p|]; [|lia]].
+    - destruct (size_eqb (rsize r) W H); destruct (rlast r) as [p|]; try lia;
+        destruct L as (c0 & _ & _ & (_ & Hp0 & _) & _); lia.
+    - destruct L as (c0 & _ & _ & (_ & Hp0 & _) & _); lia. }
+  apply okrun_app. split.
+  - apply okrun_nondesc; [|destruct done; lia|destruct done; lia].
+    unfold prologue. apply Forall_app. split; [destruct (fs && negb (ralt r)); repeat constructor|].
+    apply Forall_app. split; [destruct (rbp r); repeat constructor|destruct (rckm r); repeat constructor].
+  - fold tp. eapply okrun_mono; [apply Z.le_refl| |apply OKD]; destruct done; lia.
 Qed.
 
 Lemma r_render_unfold : forall r cfg done scr,
@@ -142,7 +158,7 @@ Qed.
 (* what the terminal looks like after a normal render of [scr] under [cfg] *)
 Definition Final (cfg : Z) (scr : screen) (t : term) : Prop :=
   pen t = 0 /\ pend t = false /\ undef t = false /\ aw t = negb fs /\ cvis t = sshow scr /\
-  cx t = scx scr /\ cy t = scy scr /\ Shows W (tbs cfg) pvis t scr.
+  cx t = scx scr /\ cy t = scy scr /\ Shows W (tbs cfg) pvis H t scr.
 
 Lemma render_notdone : forall r t cfg scr r' ks,
   Sync r t -> wf_screen W H scr ->
@@ -152,7 +168,7 @@ Proof.
   intros r t cfg scr r' ks S Ws R. rewrite r_render_unfold in R.
   destruct (screen_diff _ _ _ _ _ _ _ _ _ _ _) as [[pos cv] td] eqn:D.
   inversion R; subst r' ks; clear R. rewrite trun_app.
-  destruct (render_diff_part r t cfg false scr pos cv td S Ws D) as (U & (N & P & A & V & CVE & X & Y & ND & _) & _).
+  destruct (render_diff_part r t cfg false scr pos cv td S Ws D) as (U & (N & P & A & V & CVE & X & Y & ND & _) & _ & _).
   destruct (ND eq_refl) as (EP & SH). subst pos. cbn [fst snd orb] in *.
   pose proof Ws as (_ & _ & _ & Cxs & Cys).
   split.
@@ -174,7 +190,7 @@ Proof.
   intros r t cfg scr p r' ks S Ws EL EC R y x Hy. rewrite r_render_unfold in R.
   destruct (screen_diff _ _ _ _ _ _ _ _ _ _ _) as [[pos cv] td] eqn:D.
   inversion R; subst r' ks; clear R. rewrite trun_app.
-  destruct (render_diff_part r t cfg false scr pos cv td S Ws D) as (_ & _ & FR).
+  destruct (render_diff_part r t cfg false scr pos cv td S Ws D) as (_ & _ & FR & _).
   assert (ES : rsize r = Some (W, H)).
   { destruct S as (_ & _ & _ & _ & _ & _ & _ & _ & L). rewrite EL in L. destruct L as (c0 & _ & E & _). exact E. }
   apply (FR p); auto.
@@ -198,7 +214,7 @@ Proof.
   cbv zeta in R.
   match type of R with context [r_reset ?x] => destruct (r_reset x) as [r2 te] eqn:RS end.
   inversion R; subst r' ks; clear R. rewrite !trun_app.
-  destruct (render_diff_part r t cfg true scr pos cv td S Ws D) as (U & (N & P & A & V & CVE & X & Y & _ & DN) & _).
+  destruct (render_diff_part r t cfg true scr pos cv td S Ws D) as (U & (N & P & A & V & CVE & X & Y & _ & DN) & _ & _).
   destruct (DN eq_refl) as (EP & SH & BL). subst pos. cbn [fst snd orb] in *.
   set (td' := trun W (trun W t (prologue r)) td) in *.
   destruct (reset_run _ td' r2 te RS ltac:(cbn [rcv]; subst cv; exact V))
@@ -261,6 +277,81 @@ Lemma render_done_state : forall r t cfg scr r' ks,
   r_render tbs fs r cfg true W H scr = (r', ks) -> DoneState cfg scr (trun W t ks).
 Proof. intros r t cfg scr r' ks S Ws R. exact (proj1 (render_done r t cfg scr r' ks S Ws R)). Qed.
 
+(* ---- rows visited and written; the bounded terminal ---- *)
+Lemma reset_nondesc : forall r r2 ks, r_reset r = (r2, ks) -> Forall nondesc ks.
+Proof.
+  intros r r2 ks R. unfold r_reset in R. destruct (show_cursor (rcv r)) as [cv k3] eqn:SC.
+  inversion R; subst. unfold show_cursor in SC.
+  apply Forall_app. split; [destruct (ralt r); repeat constructor|].
+  apply Forall_app. split; [destruct (rbp r); repeat constructor|].
+  destruct (rcv r) as [[|]|]; inversion SC; subst; repeat constructor.
+Qed.
+
+(* a non-final render: the cursor never leaves rows 0..H-1, and text / erase-line
+   only ever happen in the owned rows 0..max(previous height, new height)-1 *)
+Lemma render_notdone_rows : forall r t cfg scr r' ks,
+  Sync r t -> wf_screen W H scr -> 1 <= H ->
+  r_render tbs fs r cfg false W H scr = (r', ks) ->
+  okrun (H - 1) (Z.min (Z.max (sh scr) (prevh r)) H - 1) W t ks.
+Proof.
+  intros r t cfg scr r' ks S Ws H1 R. rewrite r_render_unfold in R.
+  destruct (screen_diff _ _ _ _ _ _ _ _ _ _ _) as [[pos cv] td] eqn:D.
+  inversion R; subst r' ks; clear R.
+  destruct (render_diff_part r t cfg false scr pos cv td S Ws D) as (_ & _ & _ & OK). exact (OK H1).
+Qed.
+
+Lemma render_done_rows : forall r t cfg scr r' ks,
+  Sync r t -> wf_screen W H scr -> 1 <= H ->
+  r_render tbs fs r cfg true W H scr = (r', ks) ->
+  okrun (Z.max (H - 1) (Z.min (sh scr) H)) (Z.min (Z.max (sh scr) (prevh r)) H - 1) W t ks.
+Proof.
+  intros r t cfg scr r' ks S Ws H1 R. rewrite r_render_unfold in R.
+  destruct (screen_diff _ _ _ _ _ _ _ _ _ _ _) as [[pos cv] td] eqn:D.
+  cbv zeta in R.
+  match type of R with context [r_reset ?x] => destruct (r_reset x) as [r2 te] eqn:RS end.
+  inversion R; subst r' ks; clear R.
+  destruct (render_diff_part r t cfg true scr pos cv td S Ws D) as (_ & _ & _ & OK). specialize (OK H1).
+  rewrite app_assoc. apply okrun_app. split; [exact OK|].
+  apply okrun_nondesc; [eapply reset_nondesc; eauto| |lia].
+  apply okrun_final with (b2 := Z.min (Z.max (sh scr) (prevh r)) H - 1); [|exact OK].
+  destruct S as (_ & Cy & _ & Cyr & _). lia.
+Qed.
+
+(* the final render of an output that leaves at least one terminal row free
+   does not scroll either (an output filling all H rows ends with one newline
+   on the last row: that one scroll is the intended "line below the output") *)
+Lemma render_done_bounded : forall r t cfg scr r' ks n,
+  Sync r t -> wf_screen W H scr -> 1 <= H -> Z.min (sh scr) H <= H - 1 ->
+  r_render tbs fs r cfg true W H scr = (r', ks) ->
+  trunB H W (t, n) ks = (trun W t ks, n).
+Proof.
+  intros r t cfg scr r' ks n S Ws H1 HL R.
+  eapply trunB_eq; [destruct S as (_ & Cy & _ & Cyr & _); lia|].
+  eapply okrun_mono; [| |eapply render_done_rows; eauto]; [lia|apply Z.le_refl].
+Qed.
+
+Lemma erase_rows : forall r t r' ks b2,
+  Sync r t -> 1 <= H -> r_erase r = (r', ks) -> okrun (H - 1) b2 W t ks.
+Proof.
+  intros r t r' ks b2 (Cx & Cy & Cxr & Cyr & _) H1 E.
+  unfold r_erase in E. destruct (rpos r) as [x y] eqn:RP. cbn [fst snd] in *.
+  destruct (r_reset r) as [r2 te] eqn:RS. inversion E; subst r' ks; clear E.
+  apply okrun_nondesc; [|lia|lia].
+  apply Forall_app. split; [apply nondesc_cub|].
+  apply Forall_app. split; [apply nondesc_cuu; lia|].
+  constructor; [exact I|]. constructor; [exact I|]. constructor; [exact I|]. eapply reset_nondesc; eauto.
+Qed.
+
+(* histories of non-final renders and erases on the bounded terminal *)
+Definition okop_nd (o : op) : Prop :=
+  okop o /\ match o with ORender _ d _ _ _ => d = false | _ => True end.
+
+Fixpoint run_seqB (r : rst) (s : term * Z) (ops : list op) : rst * (term * Z) :=
+  match ops with
+  | [] => (r, s)
+  | o :: rest => let '(r', ks) := r_step tbs fs r o in run_seqB r' (trunB H W s ks) rest
+  end.
+
 (* ---- sequences ---- *)
 Fixpoint run_seq (r : rst) (t : term) (ops : list op) : rst * term :=
   match ops with
@@ -296,6 +387,27 @@ Proof.
   destruct (r_step tbs fs r o) as [r' ks]. apply IH.
 Qed.
 
+(* No scroll: on a terminal with exactly H rows below the origin, a history of
+   non-final renders and erases never scrolls, and the bounded terminal ends in
+   the very state of the unbounded one (so every theorem above applies to it). *)
+Lemma seq_noscroll : forall ops r t n,
+  Sync r t -> 1 <= H -> Forall okop_nd ops ->
+  run_seqB r (t, n) ops = (fst (run_seq r t ops), (snd (run_seq r t ops), n)).
+Proof.
+  induction ops as [|o ops IH]; intros r t n S H1 F; cbn [run_seqB run_seq fst snd]; [reflexivity|].
+  inversion F as [|? ? (OK & ND) F']; subst.
+  destruct (r_step tbs fs r o) as [r' ks] eqn:R.
+  assert (CY : cy t <= H - 1) by (destruct S as (_ & Cy & _ & Cyr & _); lia).
+  assert (E : trunB H W (t, n) ks = (t_step W t o ks, n)).
+  { destruct o as [cfg done W' H' scr| |]; cbn [okop] in OK.
+    - destruct OK as (-> & -> & Ws). subst done. cbn [r_step] in R. unfold t_step; cbn [op_shifts].
+      eapply trunB_eq; [exact CY|]. eapply render_notdone_rows; eauto.
+    - cbn [r_step] in R. unfold t_step; cbn [op_shifts].
+      eapply trunB_eq with (b2 := 0); [exact CY|]. eapply erase_rows; eauto.
+    - contradiction. }
+  rewrite E. apply IH; auto. eapply step_sync; eauto.
+Qed.
+
 (* visible equality of two terminals *)
 Definition vcell_eq (a b : tcell) : Prop :=
   tk a = tk b /\ tg a = tg b /\
@@ -312,7 +424,7 @@ Proof.
   unfold visible_eq. split; [|repeat (split; [congruence|]); exact U2].
   intros y x Hy Hx. destruct (S1 y x Hy Hx) as (K1 & G1 & Q1). destruct (S2 y x Hy Hx) as (K2 & G2 & Q2).
   unfold vcell_eq. split; [congruence|]. split; [congruence|].
-  rewrite G1. destruct (str_eqb (ch (scell scr y x)) [32]); congruence.
+  rewrite G1. destruct (str_eqb (ch (vcell H scr y x)) [32]); congruence.
 Qed.
 
 Theorem equiv_scratch : forall ops cfg scr r0 t0 r0' t0',
@@ -347,3 +459,24 @@ Proof.
 Qed.
 
 End Sync.
+
+Lemma wf_example :
+  wf_screen 4 2 (mks 2 true 1 1 [(0, [(0, mkc [97] 2 1); (1, mkc [32] 3 1); (2, mkc [32] 0 1)]); (1, [])] []).
+Proof.
+  unfold wf_screen, nscreen, nrow, ncell; cbn [srows sh scx scy].
+  split; [repeat constructor; discriminate|]. split; [lia|]. split; [|lia].
+  intros y Hy. cbn [sget].
+  destruct (0 =? y) eqn:E0; [apply Z.eqb_eq in E0; lia|].
+  destruct (1 =? y) eqn:E1; [apply Z.eqb_eq in E1; lia|reflexivity].
+Qed.
+
+(* a screen taller than the terminal (a float reaching below the last row) is well formed too *)
+Lemma wf_example_tall :
+  wf_screen 4 2 (mks 5 true 0 1 [(0, [(0, mkc [97] 2 1)]); (3, [(1, mkc [98] 0 1)])] []).
+Proof.
+  unfold wf_screen, nscreen, nrow, ncell; cbn [srows sh scx scy].
+  split; [repeat constructor; discriminate|]. split; [lia|]. split; [|lia].
+  intros y Hy. cbn [sget].
+  destruct (0 =? y) eqn:E0; [apply Z.eqb_eq in E0; lia|].
+  destruct (3 =? y) eqn:E1; [apply Z.eqb_eq in E1; lia|reflexivity].
+Qed.
